@@ -33,6 +33,7 @@ func checkC08(c *Ctx, r *Report) {
 	c08R5(c, r)
 	c08APL(c, r)
 	c08Bitmap(c, r)
+	c08OctetCap(c, r)
 }
 
 func c08Header(c *Ctx, r *Report) {
